@@ -103,6 +103,18 @@ func (e *cmpEval) keyOf(x ast.Expr) (string, int) {
 	if !ok || side < 0 {
 		return "", -1
 	}
+	// string(x) of a string-kinded value is that value
+	if call, ok := ast.Unparen(x).(*ast.CallExpr); ok && len(call.Args) == 1 {
+		if tv, ok := e.info.Types[call.Fun]; ok && tv.IsType() {
+			if bt, ok := tv.Type.Underlying().(*types.Basic); ok && bt.Info()&types.IsString != 0 {
+				if at := e.info.TypeOf(call.Args[0]); at != nil {
+					if ab, ok := at.Underlying().(*types.Basic); ok && ab.Info()&types.IsString != 0 {
+						x = call.Args[0]
+					}
+				}
+			}
+		}
+	}
 	s := exprStr(x)
 	// replace the index identifier by '#'
 	name := e.c.i.Name()
